@@ -36,3 +36,16 @@ def replay(prop, payload, path, project=proj_kinds):
     if project(case, ci[0]) != project(case, cm[0]):
         C.violation(prop, path); return 1
     print("agree"); return 0
+
+
+class DelegPart:
+    """correspondence part for runner.run_coexec"""
+    def __init__(self, prop, gen, what, n_quick=50, n_thorough=400, rule=""):
+        self.prop, self.gen, self.what, self.rule = prop, gen, what, rule
+        self.crate = "deleg" + prop[1:]
+        self.n = {"quick": n_quick, "thorough": n_thorough}
+
+    def __call__(self, rng, tier, seed, cases):
+        dcases = [self.gen(rng) for _ in range(self.n[tier])]
+        n, payload = run_part(self.prop, self.crate, dcases, seed, self.what)
+        return n, payload, {"receiver_part": {"evaluations": n, "rule": self.rule}}
